@@ -908,6 +908,13 @@ def rule_flags_only_comments(cm, rep, rid):
                             continue
                     if isinstance(b, ast.Assign) and f.name == 'generate':
                         continue        # the header alternatives, compared below
+                    if isinstance(b, ast.Assign) and all(isinstance(t, ast.Name) for t in b.targets):
+                        # a local that is only used inside the guarded block
+                        names = {t.id for t in b.targets}
+                        inside = {id(x) for bb in s.body + s.orelse for x in ast.walk(bb)}
+                        outside = [x for x in own_nodes(f.node) if isinstance(x, ast.Name) and x.id in names and id(x) not in inside]
+                        if not outside:
+                            continue
                     if isinstance(b, ast.Assign) and all(isinstance(x, (ast.Constant, ast.JoinedStr)) for x in [b.value]):
                         continue
                     bad = b
